@@ -116,6 +116,32 @@ def check_twin(sc, a, active):
     return None
 
 
+def check_twin_family(sc, factors):
+    """the whole similarity family simulated in one call, the documented pairwise form run([sensor_k], [snowpack_k]), each sensor with the
+    frequencies of its own twin: every member gives the brightness temperatures of the original scene"""
+    from smrt import make_model, sensor_list
+    m = make_model(sc["emmodel"], "dort", rtsolver_options=dict(n_max_stream=sc["nmax"]))
+    fs = [sc["frequency"], 0.55 * sc["frequency"]]
+    base = []
+    for f in fs:
+        base.append(np.asarray(m.run(sensor_list.passive(f, [20., 40.]), scenes.build(dict(sc, frequency=f))[0]).data.values, dtype=float))
+    meds, sensors = [], []
+    for a in factors:
+        tw = scaled(sc, a)
+        meds.append(scenes.build(tw)[0])
+        sensors.append(sensor_list.passive([f / a for f in fs], [20., 40.]))
+    res = m.run(sensors, meds)
+    dev = 0.0
+    for k, a in enumerate(factors):
+        sub = res.data.isel(snowpack=k)
+        for j, f in enumerate(fs):
+            v = np.asarray(sub.isel(frequency=j).values, dtype=float)      # by position: the frequency labels of a pairwise run are the first sensor's
+            if not np.all(np.isfinite(v)):
+                return ("simulation-family", float("nan"), "finite values at the twin's own frequencies")
+            dev = max(dev, float(np.abs(v - base[j]).max() / np.abs(base[j]).max()))
+    return ("simulation-family", dev, "<= 1e-6 relative") if not dev <= 1e-6 else None
+
+
 def check_twin_inplace(sc, a):
     """the twin obtained by editing a deep copy of an already simulated snowpack in place (every layer's thickness and correlation length
     times a) is the twin: same result as the one built from scratch with the scaled numbers"""
@@ -244,6 +270,36 @@ def oracle(ctx, hints, effort):
             key = f"{r[0]}:int-frequency:{kind}"
             findings.setdefault(key, Finding(key, f"scaled twin (a={a}) of a scene whose frequency is given as an integer differs: {r[0]}",
                                              {"scene": sc, "a": a, "active": False}, r[1], r[2]))
+    for it in range(1 if effort == "routine" else 5):
+        sc = const_scene(rng, "exponential", max_layers=3)
+        sc["substrate"] = dict(kind="soil_wegmuller", T=265.0, eps=[6.0, 0.5], params=dict(roughness_rms=0.005))
+        sc["emmodel"], sc["nmax"] = "iba", 16
+        factors = [1.0, 0.5, 2.0] if it == 0 else [round(float(np.exp(rng.uniform(np.log(0.25), np.log(4.0)))), 3) for _ in range(3)]
+        try:
+            evals += 5
+            r = check_twin_family(sc, factors)
+        except AssertionError:
+            continue
+        if r:
+            findings.setdefault(r[0], Finding(r[0], f"the similarity family a = {factors} simulated in one call run([sensors], [snowpacks]) differs from the "
+                                              f"original scene", {"kind": "family", "scene": sc, "factors": factors}, r[1], r[2]))
+    # thicknesses given as whole numbers of metres (Python ints), strongly attenuating layers: the twin's are floats anyway
+    for it in range(2 if effort == "routine" else 8):
+        sc = dict(thickness=[int(rng.integers(1, 3)), int(rng.integers(3, 8))], density=[round(float(rng.uniform(280, 320)), 1), round(float(rng.uniform(330, 380)), 1)],
+                  temperature=[250.0, 260.0], microstructure="exponential", frequency=89e9,
+                  micro=dict(corr_length=[round(float(rng.uniform(3.8e-4, 4.2e-4)), 7), round(float(rng.uniform(4.3e-4, 4.7e-4)), 7)]),
+                  ice_permittivity=[3.18, round(float(rng.uniform(0.03, 0.05)), 4)], substrate=dict(kind="flat", T=265.0, eps=[6.0, 0.5]),
+                  emmodel="iba", nmax=16)
+        a = [0.5, 2.5][it % 2]
+        try:
+            evals += 2
+            r = check_twin(sc, a, False)
+        except AssertionError:
+            continue
+        if r:
+            key = f"{r[0]}:int-thickness"
+            findings.setdefault(key, Finding(key, f"scaled twin (a={a}) of a scene whose thicknesses are given as integers differs: {r[0]}",
+                                             {"scene": sc, "a": a, "active": False}, r[1], r[2]))
     rough = None
     for it in range(10 if effort == "routine" else 40):
         active = it % 4 >= 2
@@ -308,6 +364,9 @@ def oracle(ctx, hints, effort):
 def replay(inp, rp=None):
     if inp.get("kind") == "inplace":
         r = check_twin_inplace(inp["scene"], inp["a"])
+        return Finding("?", r[0], inp, r[1], r[2]) if r else None
+    if inp.get("kind") == "family":
+        r = check_twin_family(inp["scene"], inp["factors"])
         return Finding("?", r[0], inp, r[1], r[2]) if r else None
     if inp.get("kind") == "invariants":
         r = check_invariants(inp["scene"], inp["a"], inp["em"])
